@@ -119,6 +119,25 @@ def ob_point_crop(k, rebase, fmode, timeout):
     )
 
 
+def ob_point_crop_defaults(timeout):
+    """PointTier.crop(a, b) with its default arguments rebases to zero; the mode argument is
+    ignored for points"""
+    names = ["a", "b", "hi", "t0", "t1"]
+
+    def pre(a, b, hi, t0, t1):
+        return pts_wf_pre(0.0, hi, t0, t1) & within(0.0, 1000.0, a, b, hi) & (a < b)
+
+    def body(a, b, hi, t0, t1):
+        tier = PointTier("p", [Point(t0, "x"), Point(t1, "y")], 0.0, hi)
+        exp, lo, hi2 = R.crop_point_tier([(t0, "x"), (t1, "y")], a, b, True)
+        for r in (tier.crop(a, b), tier.crop(a, b, "strict", True), tier.crop(a, b, "truncated", True)):
+            if tuples(r.entries) != exp or (r.minTimestamp, r.maxTimestamp) != (lo, hi2):
+                return "PointTier.crop with default / other mode arguments"
+        return True
+
+    return Ob("pcrop-defaults", F(*names), body, pre, fmode="real", timeout=timeout, funcs=FUNCS[1:2], bounds="2 points, default arguments and all mode values")
+
+
 def ob_tg_crop(mode, rebase, timeout):
     """Textgrid.crop over an interval tier (1 entry) and a point tier (1 entry)."""
     names = ["a", "b", "hi", "s0", "e0", "t0"]
@@ -183,6 +202,7 @@ def obligations(tier):
             obs.append(ob_interval_crop(2, mode, True, "real", 120))
         obs.append(ob_point_crop(2, False, "ieee", 60))
         obs.append(ob_point_crop(2, True, "real", 60))
+        obs.append(ob_point_crop_defaults(120))
         obs.append(ob_tg_crop("truncated", True, 120))
         obs.append(ob_tg_crop("lax", False, 120))
     else:
